@@ -148,6 +148,15 @@ def run_library(doc, ver, route):
     kw = {k: v for k, v in doc.items() if k != "type"}
     if any(not isinstance(k, str) for k in kw):
         return None, ValueError("bad key")
+    if route == "constructor-tuples":
+        # every JSON array handed over as a Python tuple (the constructors take any sequence; it is written as an array)
+        def tup(v):
+            if isinstance(v, list):
+                return tuple(tup(x) for x in v)
+            if isinstance(v, dict):
+                return {k: tup(x) for k, x in v.items()}
+            return v
+        kw = {k: tup(v) for k, v in kw.items()}
     return core.guarded(cls, **kw)
 
 
@@ -275,7 +284,10 @@ def run(ctx):
             step = max(1, len(grp) // per_doc)
             chosen.extend(grp[idx_seed % step::step])
         chosen.extend(library_vocab_candidates(doc, ver, cname))
-        for c in chosen:
+        # an array is an array whichever Python sequence type carried it: the corruptions of free-form values (dictionaries, unregistered
+        # extension bodies -- values no property class converts) also as tuples
+        chosen = [(c, route) for c in chosen] + [(c, "constructor-tuples") for c in chosen if c["kind"].startswith(("dict:", "ext:")) and route != "constructor-tuples"]
+        for c, route in chosen:
             case = {"ver": ver, "doc": doc, "corruptions": [c], "route": route}
             cur = C.apply(doc, c)
             in_errs = VAL.validate(cur, ver) if isinstance(cur, dict) else [("x", "", "")]
@@ -306,7 +318,7 @@ def run(ctx):
 
     per_type = max(2, ndocs // len(types))
     for ver_t in types + [("2.0", "observed-data")] * 3:
-        strat = st.tuples(typed_doc(ver_t), st.integers(0, 10 ** 6), st.sampled_from(["parse", "parse", "parse-auto", "constructor"]))
+        strat = st.tuples(typed_doc(ver_t), st.integers(0, 10 ** 6), st.sampled_from(["parse", "parse", "parse", "parse-auto", "parse-auto", "constructor", "constructor", "constructor-tuples"]))
         core.run_given(ctx, strat, body, per_type, label="c02-systematic-%s-%s" % ver_t, rounds=3)
 
     # the eight fixed TLP instances, every corruption, every route (finite: enumerated completely)
@@ -339,7 +351,7 @@ def run(ctx):
         ctx.note(case, len(chosen) > 1, ["multi-point:%d" % len(chosen), "route:" + route])
         ctx.handle(case, fails)
 
-    strat2 = st.tuples(base_doc(), st.lists(st.integers(0, 10 ** 6), min_size=2, max_size=4), st.sampled_from(["parse", "constructor"]))
+    strat2 = st.tuples(base_doc(), st.lists(st.integers(0, 10 ** 6), min_size=2, max_size=4), st.sampled_from(["parse", "constructor", "constructor-tuples"]))
     core.run_given(ctx, strat2, body_multi, ctx.n(800, 6000), label="c02-multi")
     # a verdict must not depend on what the process accepted or refused before (memo of validated identifiers, tables filled by the
     # first spec version ...): kept cases again in fresh processes, in four orders
